@@ -1524,9 +1524,16 @@ func (v *VMValue) ComputedExecute(ctx *Context, detail *BufferSpan) *VMValue {
 	}
 
 	if cd.code == nil {
-		_ = vm.Run(cd.Expr)
-		cd.code = vm.code
-		cd.codeIndex = vm.codeIndex
+		// 延迟编译。Parse 会把算力计数清零，这里必须保留调用方累计的计数(含每层 +100 的递归开销)，
+		// 并且在执行之前就把编译结果存起来: 否则函数体在首次执行期间递归调用自己时，每一层都重新走
+		// Parse，计数每层归零，递归不再受算力上限约束，直到耗尽内存
+		opCount := vm.NumOpCount
+		if err := vm.Parse(cd.Expr); err == nil {
+			vm.NumOpCount = opCount
+			cd.code = vm.code
+			cd.codeIndex = vm.codeIndex
+			_ = vm.RunAfterParsed()
+		}
 	} else {
 		vm.code = cd.code
 		vm.codeIndex = cd.codeIndex
@@ -1617,9 +1624,16 @@ func (v *VMValue) FuncInvokeRaw(ctx *Context, params []*VMValue, useUpCtxLocal b
 		cd.codeIndex = 0
 	}
 	if cd.code == nil {
-		_ = vm.Run(cd.Expr)
-		cd.code = vm.code
-		cd.codeIndex = vm.codeIndex
+		// 延迟编译。Parse 会把算力计数清零，这里必须保留调用方累计的计数(含每层 +100 的递归开销)，
+		// 并且在执行之前就把编译结果存起来: 否则函数体在首次执行期间递归调用自己时，每一层都重新走
+		// Parse，计数每层归零，递归不再受算力上限约束，直到耗尽内存
+		opCount := vm.NumOpCount
+		if err := vm.Parse(cd.Expr); err == nil {
+			vm.NumOpCount = opCount
+			cd.code = vm.code
+			cd.codeIndex = vm.codeIndex
+			_ = vm.RunAfterParsed()
+		}
 	} else {
 		vm.code = cd.code
 		vm.codeIndex = cd.codeIndex
